@@ -28,6 +28,13 @@ pub struct Family {
     /// and the sink contents must not depend on the schedule.
     pub invariant_outcome: bool,
     pub extra: Option<Extra>,
+    /// A call that does not return within the watchdog delay is a violation
+    /// of the property (liveness clause); otherwise it is a machinery error.
+    pub hang_is_violation: bool,
+    /// Run on the real multi-threaded executor with this many workers, this
+    /// many times, without the pick hook (fault/sequence enumeration only:
+    /// the thread schedule is whatever the OS produces).
+    pub uncontrolled: Option<(usize, usize)>,
 }
 
 impl Family {
@@ -40,7 +47,17 @@ impl Family {
             max_execs: 200_000,
             invariant_outcome: false,
             extra: None,
+            hang_is_violation: false,
+            uncontrolled: None,
         }
+    }
+    pub fn hang_violation(mut self) -> Self {
+        self.hang_is_violation = true;
+        self
+    }
+    pub fn uncontrolled(mut self, threads: usize, repeats: usize) -> Self {
+        self.uncontrolled = Some((threads, repeats));
+        self
     }
     pub fn bound(mut self, b: usize) -> Self {
         self.dev_bound = Some(b);
@@ -165,9 +182,47 @@ pub fn run_families(property: &str, tier: &str, fams: Vec<Family>, budget_s: f64
         let viols: Mutex<Vec<Violation>> = Mutex::new(vec![]);
         let samples: Mutex<Vec<Value>> = Mutex::new(vec![]);
         let mach: Mutex<Option<String>> = Mutex::new(None);
+        let nworkers = jobs.min(fam.scenarios.len().max(1));
+        let slots: Vec<Mutex<Option<(usize, Vec<u16>, Instant)>>> = (0..nworkers).map(|_| Mutex::new(None)).collect();
+        let done = AtomicBool::new(false);
+        let wid = AtomicUsize::new(0);
+        let hang_s: f64 = std::env::var("VX_HANG_S").ok().and_then(|s| s.parse().ok()).unwrap_or(20.0);
         std::thread::scope(|s| {
-            for _ in 0..jobs.min(fam.scenarios.len().max(1)) {
-                s.spawn(|| loop {
+            // Watchdog: an execution normally takes microseconds.
+            s.spawn(|| {
+                while !done.load(Ordering::Relaxed) {
+                    std::thread::sleep(std::time::Duration::from_millis(200));
+                    for sl in &slots {
+                        let g = sl.lock().unwrap();
+                        if let Some((i, prefix, t)) = &*g {
+                            if t.elapsed().as_secs_f64() > hang_s {
+                                let sc = &fam.scenarios[*i];
+                                let path = format!("{}/{}-{}-{}-hang.json", replay_dir, property, fam.name, i);
+                                let _ = std::fs::create_dir_all(replay_dir);
+                                let js = json!({
+                                    "engine": "simx", "property": property, "family": fam.name,
+                                    "scenario_index": i, "label": sc.label, "choices": prefix,
+                                    "violations": [format!("[hang] a call did not return within {} s", hang_s)],
+                                    "cmds": sc.cmds.iter().map(|c| format!("{:?}", c)).collect::<Vec<_>>(),
+                                    "spec": format!("{:?}", sc.spec),
+                                });
+                                let _ = std::fs::write(&path, serde_json::to_string_pretty(&js).unwrap());
+                                if fam.hang_is_violation {
+                                    println!("VIOLATION property={} replay={}", property, path);
+                                    eprintln!("  [hang] {} :: a call did not return within {} s (choices {:?})", sc.label, hang_s, prefix);
+                                    std::process::exit(1);
+                                } else {
+                                    eprintln!("simx: MACHINERY ERROR: scenario {} of family {} hangs (replay {})", sc.label, fam.name, path);
+                                    std::process::exit(2);
+                                }
+                            }
+                        }
+                    }
+                }
+            });
+            let mut handles = vec![];
+            for _ in 0..nworkers {
+                handles.push(s.spawn(|| { let my = wid.fetch_add(1, Ordering::Relaxed); loop {
                     let i = next.fetch_add(1, Ordering::Relaxed);
                     if i >= fam.scenarios.len() || stop.load(Ordering::Relaxed) {
                         break;
@@ -182,8 +237,21 @@ pub fn run_families(property: &str, tier: &str, fams: Vec<Family>, budget_s: f64
                     let mut found: Option<(Vec<u16>, Vec<Viol>)> = None;
                     let mut sample: Option<Value> = None;
                     let mut handler_execs = false;
-                    let res = explore::explore(fam.dev_bound, fam.max_execs, |prefix| {
-                        let out = run_once(sc, prefix, true);
+                    let mut unc_left = fam.uncontrolled.map(|u| u.1).unwrap_or(0);
+                    let sc_unc;
+                    let (sc, controlled) = match fam.uncontrolled {
+                        Some((threads, _)) => {
+                            let mut spec2 = (*sc.spec).clone();
+                            spec2.threads = threads;
+                            sc_unc = Scenario { spec: std::sync::Arc::new(spec2), cmds: sc.cmds.clone(), label: sc.label.clone() };
+                            (&sc_unc, false)
+                        }
+                        None => (sc, true),
+                    };
+                    let mut exec = |prefix: &[u16]| -> Result<(explore::Chooser, bool), explore::Divergence> {
+                        *slots[my].lock().unwrap() = Some((i, prefix.to_vec(), Instant::now()));
+                        let out = run_once(sc, prefix, controlled);
+                        *slots[my].lock().unwrap() = None;
                         let an = analyze(sc, &out);
                         let mut v = selected(fam, sc, &out, &an);
                         let choices: Vec<u16> = out.chooser.taken.iter().map(|t| t.0).collect();
@@ -223,7 +291,29 @@ pub fn run_families(property: &str, tier: &str, fams: Vec<Family>, budget_s: f64
                             found = Some((choices, v));
                         }
                         Ok((out.chooser, cont))
-                    });
+                    };
+                    let res = if controlled {
+                        explore::explore(fam.dev_bound, fam.max_execs, &mut exec)
+                    } else {
+                        let mut st = explore::ExploreStats::default();
+                        let mut r = Ok(());
+                        while unc_left > 0 {
+                            unc_left -= 1;
+                            match exec(&[]) {
+                                Ok((_, cont)) => {
+                                    st.executions += 1;
+                                    if !cont {
+                                        break;
+                                    }
+                                }
+                                Err(e) => {
+                                    r = Err(e);
+                                    break;
+                                }
+                            }
+                        }
+                        r.map(|_| st)
+                    };
                     match res {
                         Err(d) => {
                             *mach.lock().unwrap() = Some(format!("family {} scenario {} ({}): {}", fam.name, i, sc.label, d.0));
@@ -251,12 +341,24 @@ pub fn run_families(property: &str, tier: &str, fams: Vec<Family>, budget_s: f64
                     }
                     if let Some((choices, v)) = found {
                         // Confirm: replay twice, identical logs, violation reproduced.
-                        let o1 = run_once(sc, &choices, true);
-                        let o2 = run_once(sc, &choices, true);
+                        let o1 = run_once(sc, &choices, controlled);
+                        let o2 = run_once(sc, &choices, controlled);
                         let a1 = analyze(sc, &o1);
                         let v1 = selected(fam, sc, &o1, &a1);
                         let inv_only = v.iter().all(|x| x.tag == "outcome_varies");
-                        if o1.log != o2.log {
+                        if !controlled {
+                            // No replay confirmation is possible for real threads: the
+                            // recorded log is the artefact.
+                            let path = format!("{}/{}-{}-{}-mt.json", replay_dir, property, fam.name, i);
+                            let _ = std::fs::create_dir_all(replay_dir);
+                            let js = replay_json(property, fam, i, &choices, &v, &o1);
+                            let _ = std::fs::write(&path, serde_json::to_string_pretty(&js).unwrap());
+                            stop.store(true, Ordering::Relaxed);
+                            viols.lock().unwrap().push(Violation {
+                                family: fam.name.to_string(), scenario: i, label: sc.label.clone(), choices: choices.clone(),
+                                tag: v[0].tag.to_string(), msg: v[0].msg.clone(), replay: path,
+                            });
+                        } else if o1.log != o2.log {
                             *mach.lock().unwrap() = Some(format!(
                                 "family {} scenario {}: replay of {:?} is not deterministic",
                                 fam.name, i, choices
@@ -286,8 +388,12 @@ pub fn run_families(property: &str, tier: &str, fams: Vec<Family>, budget_s: f64
                             });
                         }
                     }
-                });
+                }}));
             }
+            for h in handles {
+                let _ = h.join();
+            }
+            done.store(true, Ordering::Relaxed);
         });
         let mut st = stats.into_inner().unwrap();
         st.wall_s = tf.elapsed().as_secs_f64();
